@@ -218,24 +218,14 @@ func checkC14(c *Check) {
 	// ---------- 4: every file operation gets exactly one answer, its own ----------
 	// (the product exploration of C10, restricted to Open / Symlink / Delete / Reset: a handler that answers twice
 	// or not at all shifts every later result onto the wrong call)
-	sub := NewCheck("C10", c.Tier, c.P)
-	checkC10(sub)
-	n4 := 0
-	for _, o := range sub.Obs {
-		if o.Rule != "C10.2/product" {
-			continue
-		}
-		fileOp := false
+	importObs(c, "C10", "C10.2/product", "4/one-answer-per-call", func(o Obligation) bool {
 		for _, op := range []string{"@Open", "@Symlink", "@Delete", "@Reset"} {
 			if strings.HasSuffix(o.Key, op) {
-				fileOp = true
+				return true
 			}
 		}
-		if o.Status == "ok" || fileOp {
-			n4++
-			c.Obs = append(c.Obs, Obligation{Rule: "C14.4/one-answer-per-call", Key: o.Key, Pos: o.Pos, Status: o.Status, Msg: o.Msg, Detail: o.Detail})
-		}
-	}
+		return o.Status == "ok"
+	})
 	c.Expect("4/one-answer-per-call", 5)
 
 	// ---------- 5: a full-size batch fits the control buffer ----------
